@@ -1,5 +1,6 @@
 import Darling.Derive.Enum
 import Darling.Props.C02
+import Darling.Options
 /-
   C09 — Derived enum receivers select exactly one declared, non-skipped variant.
   Decision logic stated outright, for every enum (any variants, any names, any inner converters)
@@ -169,5 +170,19 @@ def ex : SEnum String :=
 example : enumFromString ex "alpha" = .ok "Alpha" := by simp [enumFromString, SEnum.arm, ex]
 example : ∃ e, enumFromString ex "beta" = .err e := ⟨_, rfl⟩
 example : enumFromString ex "gamma" = .ok "Gamma(dflt)" := by simp [enumFromString, SEnum.arm, ex]
+
+/-- the bare-word form of an enum never produces a skipped variant: the variant the generated
+    `from_word` returns is a declared, non-skipped variant that carries `word = true` -/
+theorem word_variant_not_skipped (vs : List Options.RVariant) (id : String) (h : Options.wordVariant vs = some id) :
+    ∃ v ∈ vs, v.ident = id ∧ v.skip = false := by
+  unfold Options.wordVariant at h
+  rw [Option.map_eq_some_iff] at h
+  obtain ⟨v, hf, hid⟩ := h
+  have hm := List.mem_of_find?_eq_some hf
+  have hp := List.find?_some hf
+  refine ⟨v, hm, hid, ?_⟩
+  cases hs : v.skip with
+  | false => rfl
+  | true => rw [hs] at hp; simp at hp
 
 end C09
